@@ -60,7 +60,11 @@ def run_job(env, spec):
             objs = O.result_objects(t)
             if objs:
                 lc = objs[-1][1]
-                st, _ = H.solve(t.path.facts(), (E.T(lc.value) + 1 - H.ev(lc.lc.lc, pubt, privt)) % env.P != 0, job.timeout)
+                goal = (E.T(lc.value) + 1 - H.ev(lc.lc.lc, pubt, privt)) % env.P != 0
+                fs = t.path.facts()
+                if len(fs) > 600:
+                    fs = H.Slicer(t.path.facts(linear_only=True)).slice(goal, 1)
+                st, _ = H.solve(fs, goal, job.timeout)
                 job.twin(st == "sat")
                 twin_done = True
         if obs:
